@@ -60,5 +60,30 @@ PROPS["C09"] = {
     "trusted_base": ["encoding/json, regexp, bytes.Buffer, encoding/binary"],
 }
 
+_RESP_RULE = ("resp: per case one upstream answer (status 200/201/301/404/500; body empty/tiny/min-length-1/at/+1/large/random/zeros >10x/"
+              "zeros >255x/json; content type matching the filter or not or absent; encoding identity/gzip/br/lz4/zst/snz; cacheable or not) and "
+              "server settings (min-length default/1/100/5000, filter nil/'text|json'/'image'), then four requests with Accept-Encoding drawn "
+              "from 15 values (plain lists, x-gzip, *, upper case, near-misses 'abr'/'brotli'): cold fetch, second request (hit or hit-for-pass), "
+              "request after all entries were dropped and the entry restored from the store, POST pass-through; all through the real middleware "
+              "chain. Observed: status, Content-Encoding, body decoded by reference decoders == upstream plain body, bytes identical to the "
+              "upstream's, Content-Length, X-Status, end-to-end headers, upstream calls. non-trivial = every request line; distinct = distinct lines.")
+PROPS["C05"] = {
+    "suites": [{"name": "resp", "stateful": True, "seq_marker": "case", "quick": 1500, "thorough": 30000, "thorough_seeds": 3}],
+    "trip_re": "body_differs|encoding_not_accepted|content_length|status_or_header_changed",
+    "rule": _RESP_RULE,
+    "assumptions": ["codec libraries: decode(encode x) = x, compressed output non-empty (CodecsOK); the upstream body is valid for its declared encoding",
+                    "client codings from the documented alphabet, no q-values (the property says plain list)",
+                    "Content-Length is set by elton from the body buffer (trusted glue, compared in the suite)"],
+    "trusted_base": ["compress/gzip, andybalholm/brotli, pierrec/lz4, klauspost zstd, golang/snappy", "elton context and response writing"],
+}
+PROPS["C13"] = {
+    "suites": [{"name": "resp", "args": ["-opt", "c13"], "stateful": True, "seq_marker": "case", "quick": 1500, "thorough": 30000, "thorough_seeds": 3}],
+    "trip_re": "cell_differs",
+    "rule": _RESP_RULE + " The table cells {accepts none/gzip/br/both/other} x {stored variants} x {below/at/above threshold} x {type matches or not} x "
+            "{cacheable or not} are all produced by this generator (case_classes in the evidence lists the outcome classes hit).",
+    "assumptions": ["'at threshold' is not compressed (pinned from the unchanged code and docs)"],
+    "trusted_base": ["strings.Contains", "regexp on the content type for filters outside the literal-alternation subset (the generator stays inside it)"],
+}
+
 NOT_APPLICABLE = {}
 HOOK_COMMITS = ["ca43a57", "6332ff2"]
